@@ -30,8 +30,103 @@ Theorem sync_tells_assigned : forall s eh c dg dnc tm qts sfx z,
 Proof. exact sync_tells_assigned_step. Qed.
 Print Assumptions sync_tells_assigned.
 
+(* ---- the exclusivity invariant, for every reachable state ----------------------------------------------------
+   Hypothesis [no_phantom_sync evs]: no Synchronize event of the run comes from a worker whose id hash is
+   4294967295, the value the model uses for "no worker" while task.complete detaches a queued task
+   (the Go code uses a nil worker there; the harness never generates that id). *)
+
+(* worker and task pointers are mutually inverse: a task's worker is registered, is not the placeholder,
+   runs that task, and the task has no response; a registered worker's task points back to it *)
+Theorem workers_tasks_inverse : forall cfg t0 evs, no_phantom_sync evs ->
+  let s := fst (run (init cfg t0) evs) in
+  (forall t w, t_worker (get_task s t) = Some w ->
+     is_phantom w = false /\ worker_exists s w = true /\ k_task (get_worker s w) = Some t /\ t_resp (get_task s t) = None) /\
+  (forall w t, worker_exists s w = true -> k_task (get_worker s w) = Some t -> t_worker (get_task s t) = Some w).
+Proof. exact workers_tasks_inverse. Qed.
+Print Assumptions workers_tasks_inverse.
+
+(* every queue entry is a registered operation of exactly that invocation whose task has neither worker
+   nor response; no invocation lists an operation twice and invocation keys are unique, so no operation
+   is queued twice anywhere *)
+Theorem queued_ops_sane : forall cfg t0 evs, no_phantom_sync evs ->
+  let s := fst (run (init cfg t0) evs) in
+  (forall i o, In o (v_qops (get_inv s i)) ->
+     op_alive s o = true /\ o_inv (get_op s o) = i /\
+     t_worker (get_task s (o_task (get_op s o))) = None /\ t_resp (get_task s (o_task (get_op s o))) = None) /\
+  (forall i, NoDup (v_qops (get_inv s i))) /\
+  NoDup (map fst (s_invs s)).
+Proof. exact queued_ops_sane. Qed.
+Print Assumptions queued_ops_sane.
+
+(* a registered operation is listed by its task under its invocation, a task lists only registered
+   operations of its own under their invocation, and none twice *)
+Theorem ops_tasks_inverse : forall cfg t0 evs, no_phantom_sync evs ->
+  let s := fst (run (init cfg t0) evs) in
+  (forall o, op_alive s o = true -> In (o_inv (get_op s o), o) (t_ops (get_task s (o_task (get_op s o))))) /\
+  (forall t i o, In (i, o) (t_ops (get_task s t)) -> op_alive s o = true /\ o_task (get_op s o) = t /\ o_inv (get_op s o) = i) /\
+  (forall t, NoDup (map snd (t_ops (get_task s t)))).
+Proof. exact ops_tasks_inverse. Qed.
+Print Assumptions ops_tasks_inverse.
+
+(* a completed task is held by nobody: it has no worker, no registered worker runs it, none of its
+   operations is in a queue *)
+Theorem completed_task_released : forall cfg t0 evs, no_phantom_sync evs ->
+  let s := fst (run (init cfg t0) evs) in
+  forall t r, t_resp (get_task s t) = Some r ->
+    t_worker (get_task s t) = None /\
+    (forall w, worker_exists s w = true -> k_task (get_worker s w) <> Some t) /\
+    (forall i o, In o (v_qops (get_inv s i)) -> o_task (get_op s o) <> t).
+Proof. exact completed_task_released. Qed.
+Print Assumptions completed_task_released.
+
+(* no_start_after_complete: whenever an event of a run makes a Synchronize call answer "execute",
+   the answer describes a task that is assigned to a registered worker (pointers both ways) and
+   has no response *)
+Theorem no_start_after_complete : forall cfg t0 evs eh c dg dnc tm qts sfx z,
+  no_phantom_sync (evs ++ [eh]) ->
+  let s := fst (run (init cfg t0) evs) in
+  In (OSync c (DExec dg dnc tm qts sfx) z) (snd (step s eh)) ->
+  let s' := fst (step s eh) in
+  exists w t, worker_exists s' w = true /\ k_task (get_worker s' w) = Some t /\ t_worker (get_task s' t) = Some w /\
+              exec_desired s' t = DExec dg dnc tm qts sfx /\ t_resp (get_task s' t) = None.
+Proof. exact no_start_after_complete. Qed.
+Print Assumptions no_start_after_complete.
+
+(* the tables, for every run without hypothesis: unique size-class-queue keys; unique worker keys in each
+   queue and a worker is listed only in the queue its id names; unique invocation keys; a queue has a root
+   invocation and vice versa; every size class queue has its platform queue, which lists its size class *)
+Theorem tables_structure : forall cfg t0 evs,
+  let s := fst (run (init cfg t0) evs) in
+  NoDup (map fst (s_scqs s)) /\
+  (forall k q, In (k, q) (s_scqs s) -> NoDup (map fst (q_workers q)) /\ forall w, In w (map fst (q_workers q)) -> w_sk w = k) /\
+  NoDup (map fst (s_invs s)) /\
+  (forall k, inv_exists s (mkI k []) = scq_exists s k) /\
+  (forall k, scq_exists s k = true -> exists p, In p (s_pqs s) /\ p_key p = sk_pk k /\ In (sk_sc k) (p_scs p)).
+Proof. exact tables_structure. Qed.
+Print Assumptions tables_structure.
+
+(* the worker protocol, for every run without hypothesis: a parked Synchronize call names a registered
+   worker whose removal is not armed, and no two calls name the same worker; the idle list of an
+   invocation holds registered waiting workers of that queue whose last invocation it is, none twice;
+   a queue whose removal is armed has no workers *)
+Theorem parked_workers : forall cfg t0 evs,
+  let s := fst (run (init cfg t0) evs) in
+  (forall c p w, aget Nat.eqb c (s_calls s) = Some p -> sync_of p = Some w -> worker_exists s w = true /\ k_cleanup (get_worker s w) = None) /\
+  (forall c c' p p' w, aget Nat.eqb c (s_calls s) = Some p -> aget Nat.eqb c' (s_calls s) = Some p' -> sync_of p = Some w -> sync_of p' = Some w -> c = c') /\
+  (forall i w, In w (v_isync (get_inv s i)) ->
+     worker_exists s w = true /\ k_wait (get_worker s w) = true /\ k_last (get_worker s w) = Some (i_path i) /\ w_sk w = i_sk i) /\
+  (forall i, NoDup (v_isync (get_inv s i))) /\
+  (forall k, q_cleanup (get_scq s k) <> None -> q_workers (get_scq s k) = []).
+Proof. exact parked_workers. Qed.
+Print Assumptions parked_workers.
+
+(* the hypothesis is satisfiable by runs that do synchronize workers (and the conclusion is about a state
+   with an assigned task): see the example run of PropertiesC02.v for a run with a worker *)
+Example no_phantom_sync_example :
+  no_phantom_sync [(EStartSync 1 (mkSync (mkW (mkSK (mkPK [] 0) 0) 7 7) WIdle false) 0, [])].
+Proof. intros c a t h [Heq|[]]. inversion Heq; subst. reflexivity. Qed.
+
 (* NOT PROVED (docs/areas/Sched-proofs.md):
-   Theorem sched_exclusive : forall cfg t0 evs, fresh_calls [] evs -> c01_dump (observe (fst (run (init cfg t0) evs))) = ""
-     (t_worker t = Some w <-> k_task w = Some t; queued operations are registered, their task has no worker
-      and no response, no operation queued twice);
-   Theorem no_start_after_complete (the task named by sync_tells_assigned has no response). *)
+   the converse direction of queued_ops_sane (an idle uncompleted task's operations ARE queued) and with it
+   Theorem sched_exclusive : c01_dump (observe (fst (run (init cfg t0) evs))) = "";
+   it is false of the model for selector answers with an out-of-range size class index (see the doc). *)
